@@ -532,6 +532,7 @@ int main(int argc, char **argv) {
       else if (k == 0) setenv("HOME", SB, 1);
       else { char h[600]; int i, l; if (k > 250) k = 250; l = snprintf(h, sizeof h, "%s/", SB); for (i = 0; i < k; i++) h[l + i] = 'h'; h[l + k] = 0;
              if (mkdir(h, 0755) != 0 && errno != EEXIST) { perror(h); return 2; } setenv("HOME", h, 1); }
+      print_tree();
       puts(".");
     } else if (!strcmp(tok[0], "tight") && n == 3 && !strncmp(tok[1], "reg=", 4) && !strncmp(tok[2], "en=", 3)) {
       int r = atoi(tok[1] + 4), e = atoi(tok[2] + 3); char root[128];
